@@ -33,7 +33,7 @@ def run(module, cfg=None, env=None, workers=16, timeout=3600, simulate=None, dep
         coverage=False, extra=(), heap=None, deadlock=False):
     """Run TLC on spec/<module>.tla with spec/<cfg> (default <module>.cfg)."""
     workers = int(os.environ.get('VERIF_TLC_WORKERS', workers))
-    meta = tempfile.mkdtemp(prefix='tlc-meta-')
+    meta = tempfile.mkdtemp(prefix='vtlc-')
     cfg = cfg or (module + '.cfg')
     cmd = ['java', '-XX:+UseParallelGC']
     cmd.append('-Xmx%s' % (heap or os.environ.get('VERIF_TLC_HEAP', '6g')))
